@@ -87,7 +87,8 @@ def classify_unserializable(h):
                 key = (o["s"], o["k"])
                 earlier_own = any(p2 is not o and (p2["s"], p2["k"]) == key and p2["op"] in ("Add", "AddIfNotExist", "Upsert", "Update") and p2["ok"]
                                   for p2 in t["ops"][:t["ops"].index(o)])
-                if key not in init and not earlier_own and not (writers.get(key, set()) - {t["t"]}):
+                if o["op"] == "Upsert" or (key not in init and not earlier_own and not (writers.get(key, set()) - {t["t"]})):
+                    # (an Upsert adds or updates: no serial order makes it return false)
                     return "write-refused-without-cause:%s" % o["op"]
     for t in h["txns"]:
         per = {}
